@@ -26,6 +26,10 @@ class OutsideSubset(Exception):
     pass
 
 
+class HintUnavailable(Exception):
+    """a lazy proof hint refers to a square root the code has not introduced (yet)"""
+
+
 class Ctx:
     """State of one symbolic path."""
 
@@ -48,6 +52,8 @@ class Ctx:
         self.sqrt_hints = []
         self.sign_hints = []
         self.signfacts = []                   # (rel, truth) of branch conditions taken
+        self.speculative = False              # evaluating proof hints: divisions assert nothing
+        self.lookup_only = False              # lazy hints may only re-use existing sqrt symbols
         self.probe_env = None
         self.nosplit = False
         self.notes = []
@@ -428,9 +434,10 @@ def _div(a, b):
     if _isconst(a):
         a = lift(a)
     c = ctx()
-    # safety obligation: denominator non-zero (cheap syntactic discharge for known-nonzero)
-    c.oblige('div_nonzero', B(b.n != 0, rel=('!=', R(b.n), 0)))
-    c.facts.append(b.n != 0)          # cut
+    if not c.speculative:
+        # safety obligation: denominator non-zero
+        c.oblige('div_nonzero', B(b.n != 0, rel=('!=', R(b.n), 0)))
+        c.facts.append(b.n != 0)          # cut
     ang = None
     cb = ang_const(b.ang)
     if cb is not None and cb[0] != 0:
@@ -986,6 +993,20 @@ def sin(x):
     return math.sin(x)
 
 
+def eval_hint(c, h):
+    """a hint is a value or a callable evaluated now, speculatively, re-using existing sqrt symbols only"""
+    if not callable(h):
+        return lift(h)
+    saved = (c.speculative, c.lookup_only)
+    c.speculative, c.lookup_only = True, True
+    try:
+        return lift(h())
+    except (HintUnavailable, ZeroDivisionError):
+        return None
+    finally:
+        c.speculative, c.lookup_only = saved
+
+
 def _quick_differs(c, p):
     """cheap numeric pre-filter: True if polynomial p is clearly non-zero at a probe point that
     satisfies the current path condition (used only to skip hopeless proof hints)"""
@@ -1028,8 +1049,12 @@ def sqrt(x, nonneg_known=False):
             return r0
     # proof guidance: a contract may name candidate closed forms s; s is used only after the
     # certificate s*s == x (modulo the current hypotheses) and s >= 0 have been established
+    if c.lookup_only:
+        raise HintUnavailable()
     for s_ in c.sqrt_hints:
-        s_ = lift(s_)
+        s_ = eval_hint(c, s_)
+        if s_ is None:
+            continue
         p = eq_poly(s_ * s_, x)
         if p is None:
             continue
@@ -1039,7 +1064,9 @@ def sqrt(x, nonneg_known=False):
         if r_['status'] != 'discharged':
             continue
         from . import signs as _signs
-        if _signs.prove_sign(c, c.facts, c.pc, c.hyps, s_, '>=', c.sign_hints, c.signfacts, cert_timeout=10):
+        if s_.d is not None and not _cert.nonzero_from_facts(s_.d, c.facts + c.pc):
+            continue          # a hint is only usable where its denominators are known non-zero
+        if _signs.prove_sign(c, c.facts, c.pc, c.hyps, s_, '>=', c.sign_hints, c.signfacts, cert_timeout=24):
             c.memo[key] = s_
             c.memo['sqrts'].append((x, s_))
             c.notes.append('sqrt resolved to a closed form named by the contract (certificate + sign checked)')
@@ -1112,6 +1139,9 @@ def arccos(x):
     th = angle(nm, numdef=lambda env: math.acos(max(-1.0, min(1.0, numeval(zv, env)))))
     c.atoms[(nm, Fraction(1), 0)] = (x, S)
     c.facts.append(z3.And(th.z >= 0, th.z <= pi().z))
+    c.facts.append(z3.Implies(z3.And(th.z > 0, th.z < pi().z), lift(S).z > 0))     # sin > 0 on (0, pi)
+    c.facts.append(z3.And(z3.Implies(2 * th.z < pi().z, x.z > 0), z3.Implies(2 * th.z > pi().z, x.z < 0),
+                          z3.Implies(x.z > 0, 2 * th.z < pi().z), z3.Implies(x.z < 0, 2 * th.z > pi().z)))
     c.facts.append(z3.And(z3.Implies(x.z == 1, th.z == 0), z3.Implies(th.z == 0, x.z == 1),
                           z3.Implies(x.z == -1, th.z == pi().z), z3.Implies(th.z == pi().z, x.z == -1)))
     c.memo[key] = th
@@ -1154,7 +1184,8 @@ def arctan(t):
     c.atoms[(nm, Fraction(1), 0)] = (1 / rho, t / rho)
     c.facts.append(z3.And(2 * th.z > -pi().z, 2 * th.z < pi().z))
     c.facts.append(z3.And(z3.Implies(t.z >= 0, th.z >= 0), z3.Implies(t.z <= 0, th.z <= 0),
-                          z3.Implies(t.z == 0, th.z == 0)))
+                          z3.Implies(t.z == 0, th.z == 0), z3.Implies(t.z > 0, th.z > 0),
+                          z3.Implies(t.z < 0, th.z < 0)))
     c.memo[key] = th
     return th
 
